@@ -1,5 +1,6 @@
 #!/bin/bash
 # usage: confirm_seed.sh <ID> <seeddir> <demo-package-dir-relative-to-repo> [test regex]
+# (DEMOFLAGS=-race for demonstrations that need the race detector)
 # Confirms a seeded change in the scratch worktree /tmp/wt-<ID>: existing suite passes with the patch,
 # the demonstration fails with it and passes without it. Leaves the worktree clean.
 export GOFLAGS=-mod=mod GOPROXY=off GOSUMDB=off GOTOOLCHAIN=local
@@ -14,7 +15,7 @@ git apply "$seed/patch.diff"
 cp "$seed"/demo*_test.go "$pkg"/ 2>/dev/null
 go build ./... || { echo "BUILD FAILS WITH PATCH"; exit 2; }
 echo "== demo WITH patch (must fail)"
-go test -vet=off -count=1 -timeout 20m -run "$re" "./$pkg/" 2>&1 | tail -4
+go test $DEMOFLAGS -vet=off -count=1 -timeout 20m -run "$re" "./$pkg/" 2>&1 | tail -4
 rm -f "$pkg"/demo*_test.go
 echo "== existing suite WITH patch (must pass)"
 go test -vet=off -count=1 -timeout 25m ./... > /tmp/confirm-suite-$id.log 2>&1
@@ -23,7 +24,7 @@ grep "^FAIL\|^--- FAIL" /tmp/confirm-suite-$id.log | head -5; rm -f /tmp/confirm
 git checkout -q -- . && git clean -fdq
 cp "$seed"/demo*_test.go "$pkg"/
 echo "== demo WITHOUT patch (must pass)"
-go test -vet=off -count=1 -timeout 20m -run "$re" "./$pkg/" 2>&1 | tail -3
+go test $DEMOFLAGS -vet=off -count=1 -timeout 20m -run "$re" "./$pkg/" 2>&1 | tail -3
 rm -f "$pkg"/demo*_test.go
 git checkout -q -- . && git clean -fdq
 git status --short | head -3
